@@ -849,6 +849,15 @@ theorem vector_leaf_gradient_exact_partial (dJ : DJ ℝ) (hdJ : DJShape dJ) (eps
       (DVec.dot (grad m i (backprop dJ eps env0 p c)) d) 0 :=
   vleaf_gradient_exact dJ hdJ eps heps lt env0 hP i m hi d hd p hR n hty c hc
 
+/-- **the reverse sweep is per leaf** (class 37, model side): `.grad` of leaf `i` is the same whichever set `S ∋ i` of leaves is
+differentiated — the contributions addressed to leaves outside `S` (operands with `requires_grad = False`, constants) are simply not
+delivered, and no contribution to `i` depends on them.  In the real code this is the business of the `ctx.needs_input_grad` guards; that
+they behave like this is decided by the `subsets` stream only (seed C04-5 nested one of them). -/
+theorem leaf_gradient_independent_of_differentiated_set (dJ : DJ ℝ) (eps : ℝ) (env : List (DVec ℝ)) (p : Prog) (c : DVec ℝ)
+    (n i : Nat) (S : Nat → Bool) (hS : S i = true) :
+    grad n i ((backprop dJ eps env p c).filter (fun k => S k.1)) = grad n i (backprop dJ eps env p c) :=
+  grad_filter n i S hS _
+
 /-- non-vacuity of `PointOK` / `Regimes`: the program `Act(Exp(a) @ X, p)` on `SO3` — `X.grad` read through the retraction — at
 `X = (0.6, 0, 0, 0.8)`, `a = 0`, `p = (1, 2, 3)`: the `Exp` node is evaluated at the zero vector, a proved regime -/
 example : PointOK [.G .SO3, .V 3, .V 3] [[0.6, 0, 0, 0.8], [0, 0, 0], [1, 2, 3]] ∧
